@@ -55,9 +55,22 @@ def vectors(els, max_atoms):
     return out
 
 
+def mixed_sign_vectors(els):
+    """vectors with a negative entry next to positive ones (the second rule-based pass produces them for
+    two-sided imbalances); no completion can add up to them, so any returned solution is wrong"""
+    out = []
+    for a, b in itertools.permutations(els, 2):
+        for neg in (-1, -2):
+            for pos in (1, 2):
+                out.append({a: pos, b: neg})
+    for a, b, c in itertools.permutations(els[:8], 3):
+        out.append({a: 2, b: 1, c: -1})
+    return out
+
+
 def plan(tier, seed):
     q = tier == "quick"
-    shards = [{"records": True}]
+    shards = [{"records": True}, {"mixed_sign": True}]
     n = 12 if q else 40
     for i in range(n):
         shards.append({"vec": {"db": "manager", "max": 3 if q else 4, "i": i, "n": n}})
@@ -162,6 +175,12 @@ def work(shard, res, tier, seed):
         res.count("exhaustive_space:%s" % sp["db"], len(vs) if sp["i"] == 0 else 0)
         sv = mine[len(mine) // 2]
         res.sample({"vector": sv})
+    if "mixed_sign" in shard:
+        db = load_db("manager")
+        vs = mixed_sign_vectors(db_elements(db))
+        for v in vs:
+            run_match(db, v, res, "mixed_sign")
+        res.count("mixed_sign_vectors", len(vs))
     if "sums" in shard:
         db = load_db("manager")
         for i in range(shard["sums"]["n"]):
@@ -306,6 +325,8 @@ def pipeline_part(n, rng, res):
     try:
         cases = rowlib.corpus_cases(rng, n, 10, [{"batch_size": None, "threshold": 0, "n_jobs": 1}])
         cases += rowlib.gen_cases(G.deletions(rng, n), 10, [{"batch_size": None, "threshold": 0, "n_jobs": 1}], "del")
+        cases += rowlib.gen_cases(G.two_sided_oxygen(rng, n // 2) + G.redox_family(rng, n // 4), 10,
+                                  [{"batch_size": None, "threshold": 0, "n_jobs": 1}], "both")
         for c in cases:
             out = rowlib.run_case(c, trace=False)
             # row level: rule-based rows never add dihalogens to the product side
@@ -339,7 +360,7 @@ def conclude_args(res, tier, seed):
     ex = res.counters.get("exhaustive_vectors:manager", 0) == res.counters.get("exhaustive_space:manager", -1)
     return {"need": {"records_checked": 60, "matcher_calls": 3000, "vectors_with_solution": 200,
                      "single_impute_with_solution:direct": 50, "single_impute_with_solution:pipeline": 20,
-                     "constraint_accepted": 30},
+                     "constraint_accepted": 30, "mixed_sign_vectors": 500},
             "min_cases": 200,
             "extra": {"exhaustive_subspace": "imbalance vectors up to %d atoms x charge -2..2 over the shipped "
                       "database's elements enumerated completely: %s" % (3 if tier == "quick" else 4, ex)}}
